@@ -145,6 +145,15 @@ def sheet_obs(maxlen_q, maxlen_p, timeout):
                   family='c02.sheet', bounds=f"quoted sheet name: all code points except Excel's forbidden : \\ / ? * [ ] and no leading/trailing apostrophe, length 1..{maxlen_q} (' doubled by the renderer); $ variants by forking",
                   show=lambda n, dc, dr: f"={quote_sheet(n)}!{coord(dc, dr, 'B', '7')}+1 and =SUM(A1,...)"))
 
+    def h_apostrophe(a: str, b: str, dc: bool) -> bool:
+        n = a + "'" + b                       # an apostrophe inside the title (written doubled in the formula)
+        ref = quote_sheet(n) + '!' + coord(dc, dc, 'B', '7')
+        want = ('ref', n + '!' + coord(dc, dc, 'B', '7'))
+        return (eq_shape(parse('=' + ref + '+1'), ('bin', '+', want, ('number', '1'))) and eq_shape(parse('=SUM(' + quote_sheet(n) + '!A1:A2,' + ref + ')'), ('call', 'SUM', (('ref', n + '!A1:A2'), want))))
+    obs.append(Ob("c02.sheet[apostrophe inside]", h_apostrophe, pre=lambda a, b, dc: valid_title(a) and valid_title(b) and len(a) == 1 and len(b) == 1, witness=[('I', 's', False), ('Q', '2', True)],
+                  timeout=timeout, cost=20, family='c02.sheet', bounds="quoted sheet title a'b with a, b any valid title character: the doubled apostrophe stands for one",
+                  show=lambda a, b, dc: f"='{a}''{b}'!B7+1"))
+
     def h_quoted_range(n: str, d1: bool, d2: bool) -> bool:
         rng = coord(d1, d1, 'A', '1') + ':' + coord(d2, d2, 'C', '3')
         ref = quote_sheet(n) + '!' + rng
@@ -255,6 +264,10 @@ SKELETONS = [
      ('call', 'AND', (('ref', 'A1'), ('call', 'OR', (('ref', 'B1'), ('call', 'NOT', (('ref', 'C1'),))))))),
     (['PI()', '*', 'A1'], [0, 1, 2],
      ('bin', '*', ('call', 'PI', ()), ('ref', 'A1'))),
+    (['ROUND(', 'PI()', ',', 'A1', ')'], [0, 1, 2, 3, 4],
+     ('call', 'ROUND', (('call', 'PI', ()), ('ref', 'A1')))),
+    (['IF(', 'TRUE()', ',', 'SUM(', '1', ',', 'PI()', ',', 'NOW()', ')', ',', '-', 'PI()', ')'], [0, 1, 2, 3, 4, 5, 6, 7, 8, 9, 10, 12, 13],
+     ('call', 'IF', (('call', 'TRUE', ()), ('call', 'SUM', (('number', '1'), ('call', 'PI', ()), ('call', 'NOW', ()))), ('pre', '-', ('call', 'PI', ()))))),
     (['VLOOKUP(', 'A1', ',', '$B$1:$D$9', ',', '2', ',', 'FALSE', ')'], list(range(9)),
      ('call', 'VLOOKUP', (('ref', 'A1'), ('ref', '$B$1:$D$9'), ('number', '2'), ('logical', 'FALSE')))),
 ]
